@@ -2024,7 +2024,7 @@ impl<R: Reader, S: EvaluationStorage<R>> Evaluation<R, S> {
 
     fn evaluate_internal(&mut self) -> Result<EvaluationResult<R>> {
         while !self.end_of_expression() {
-            self.iteration += 1;
+            self.iteration = self.iteration.saturating_add(1);
             if let Some(max_iterations) = self.max_iterations
                 && self.iteration > max_iterations
             {
